@@ -898,9 +898,11 @@ class Fxp():
                 val_dtype = object
                 val = val.astype(object)
             else:
-                if not (val.dtype.kind == 'f' and np.issubdtype(original_vdtype, np.integer)) and val.dtype != object:
+                if not (val.dtype.kind == 'f' and np.issubdtype(original_vdtype, np.integer)) and val.dtype != object \
+                        and not (raw and val.dtype.kind in 'iu'):
                     # (a float value with an integer vdtype is a re-scaled raw value: it has to be rounded, not truncated;
-                    #  python numbers held in an object array - exact quotients, mixed integers and floats - are rounded one by one as they are)
+                    #  python numbers held in an object array - exact quotients, mixed integers and floats - are rounded one by one as they are;
+                    #  integer raw codes stay integers: a float or narrow value type would cut them)
                     val = val.astype(original_vdtype)
                 val_dtype = np.int64 if self.signed else np.uint64
 
